@@ -283,6 +283,8 @@ def run(F, R, tier, cfg):
     drop_rule(F, R)
     continue_rule(F, R)
     key_rule(F, R)
+    order_rule(F, R)
+    enum_index_rule(F, R)
 
 
 ADD_SEG = G + "MultiGraph::<'a, F, EntryType>::add_segment"
@@ -352,3 +354,72 @@ def key_rule(F, R):
                         "ends up stored with another segment and `peer_entries.get(i).expect(..)` in PathSolution::path can panic or pick the wrong peer"
                         % tr.split("::")[-1], sp.loc)
 
+
+
+ADAPTERS = re.compile(r"::(filter|filter_map|skip|skip_while|take|take_while|step_by|rev|chain|flat_map|flatten|scan|map_while|peekable|dedup\w*|sorted\w*)$")
+
+
+def order_rule(F, R):
+    """ORDER-dedup: in combine_with_weight_fn de-duplication is the last step and its input is already loop-filtered.
+    filter_duplicates keeps, per fingerprint (interface ids only), the entry with the later expiry; if looping paths are
+    still in its input a looping path can displace a valid one with the same fingerprint and be dropped afterwards."""
+    p = COMB + "combine_with_weight_fn"
+    b = F.body(p)
+    if b is None:
+        R.anchor_missing(p)
+        return
+    R.fn(p)
+    o = b.local_origin(0)
+    alts = [a for a in o[1] if isinstance(a, tuple)] if o[0] == "phi" else [o]
+    dd = [a for a in alts if a[0] == "call" and a[1].endswith("::filter_duplicates")]
+    other = [a for a in alts if a not in dd and not (a[0] == "call" and re.search(r"::(new|default)$", a[1]))]
+    ok_last = bool(dd) and not other
+    ok_in = False
+    for a in dd:
+        for n in walk(a[2][0]):
+            if n[0] == "call" and re.search(r"::(filter|retain)$", n[1]) and len(n[2]) == 2:
+                cl = [x[1][1] for x in walk(n[2][1]) if x[0] == "agg" and isinstance(x[1], tuple) and len(x[1]) > 1 and "{closure#" in str(x[1][1])]
+                for q in cl:
+                    qb = F.body(q)
+                    if qb is not None and any(c.decl.endswith("::has_loops") for c in qb.calls if not c.indirect):
+                        ok_in = True
+    ok = ok_last and ok_in
+    R.ob("ORDER-dedup", "combine_with_weight_fn returns filter_duplicates(loop-filtered paths)", ok, True,
+         {"rule": "ORDER-dedup", "fn": p, "dedup_is_last": ok_last, "input_loop_filtered": ok_in, "holds": ok})
+    if not ok:
+        R.violation("ORDER-dedup", p, "de-duplication is not the last step over loop-filtered paths (last: %s, input filtered by has_loops: %s): a looping "
+                    "path with the same interface fingerprint and a later expiry displaces a valid path and is then dropped" % (ok_last, ok_in), F.loc(p))
+
+
+def enum_index_rule(F, R):
+    """IDX-peer: the peer index stored in graph edges is the position in `entry.peer_entries` (PathSolution::path indexes
+    that vector with it), so the enumerate() that produces it must run directly over peer_entries.iter() — an adapter
+    (filter, skip, rev …) in between shifts the positions."""
+    n = 0
+    for p in F.all_body_paths("sciparse"):
+        if "::combinator::graph::" not in p or T.is_test_support(p):
+            continue
+        b = F.body(p)
+        for c in b.calls:
+            if c.indirect or not c.decl.endswith("Iterator::enumerate") or c.bb not in b.live_blocks():
+                continue
+            o = strip_sites(b.origin(c.args[0]))
+            if "field:peer_entries" not in tokens(o):
+                continue
+            n += 1
+            R.fn(p)
+            x = o
+            while x[0] == "call" and re.search(r"::into_iter$", x[1]) and x[2]:
+                x = PN._peel_refs(x[2][0])
+            direct = False
+            if x[0] == "call" and re.search(r"::iter$", x[1]) and x[2]:
+                y = PN._peel_refs(x[2][0])
+                while y[0] == "call" and re.search(r"::(deref|as_slice|as_ref)$", y[1]) and y[2]:
+                    y = PN._peel_refs(y[2][0])
+                direct = y[0] == "field" and y[2] == "peer_entries"
+            R.ob("IDX-peer", "%s: peer index = position in peer_entries (enumerate directly over peer_entries.iter())" % short(p), direct, True,
+                 {"rule": "IDX-peer", "fn": p, "loc": c.span.loc, "enumerated": fmt(o, 160), "holds": direct})
+            if not direct:
+                R.violation("IDX-peer", p, "the peer index is produced by enumerate() over an adapted iterator (%s) but used to index the unadapted "
+                            "peer_entries: the peering hop is built from the wrong entry" % fmt(o, 120), c.span.loc)
+    R.floor("IDX-peer", n, 1, "enumerate() over peer_entries in the combinator graph")
